@@ -10,12 +10,11 @@
   functions (`Transc.real_lawful`: the real ones are lawful), positive constants and wavelengths.
   The photon-unit integral of the total-flux Gaussian is proved at `K = ℝ` with Mathlib's integral.
 
-  Two instances of the property are false of the current code (kept below as comments marked
-  NOT PROVABLE ON CURRENT CODE, each with a machine-checked witness):
-    * `Const1D` receives a Quantity amplitude unconverted (`'noconv'`): the object built from
-      `amplitude = a PHOTLAM` is not the object built from the number `a`;
-    * `ExtinctionModel1D` has a flux-like `lookup_table` but no entry in `_model_fconv_wav`: in a
-      `SourceSpectrum` a flux-unit table is converted at no wavelength at all (all NaN).
+  Two instances of the property were false of the code as found (`Const1D` received a Quantity
+  amplitude unconverted; `ExtinctionModel1D` had a flux-like `lookup_table` but no reference
+  wavelength, so a flux-unit table in a `SourceSpectrum` became NaN).  Both were found by this check
+  and repaired in /repo (0d4a51b, e50ecea); the model follows the repaired code and the two
+  equivalences are theorems (`const1_quantity_eq_number`, `extinction_table_converted`).
 
   Modelled, not verified: astropy's `Quantity.to` / `u.spectral()` / `u.spectral_density()` (the
   real-number conversion rules are the model's), binary64 rounding, the Float-backed functions of
@@ -46,9 +45,8 @@ def fluxNames : List String := ["amplitude", "lookup_table"]
 /-- reference-wavelength parameters: the position of the feature, the knots of a table -/
 def refNames : List String := ["x_0", "mean", "x_break", "points"]
 
-/-- classes whose amplitude keeps the unit it was given in (`ConstFlux1D`, `PowerLawFlux1D` convert on
-evaluation; `Const1D` — see `const1_quantity_not_number`) -/
-def ownUnitModels : List String := ["Const1D", "ConstFlux1D", "PowerLawFlux1D"]
+/-- classes whose amplitude keeps the unit it was given in (they convert on evaluation) -/
+def ownUnitModels : List String := ["ConstFlux1D", "PowerLawFlux1D"]
 
 /-- the rule of the statement: wavelength-like parameters go through the spectral equivalence,
 flux-like ones are converted at the reference wavelength, classes with a unit of their own receive
@@ -64,14 +62,17 @@ def expectedKind (m p : String) : String :=
 def kindsOk (tbl : ParamTable) : Bool :=
   tbl.all fun m => m.2.all fun p => p.2 == expectedKind m.1 p.1
 
-/-- every class with a flux-like parameter (other than `ExtinctionModel1D`) names, as the wavelength
-of the conversion, one of its own wavelength-like position parameters -/
+/-- every class with a flux-like parameter names, as the wavelength of the conversion, one of its own
+wavelength-like position parameters; a class without any wavelength-like parameter (`Const1D`) has no
+such entry (and then only takes flux Quantities in the internal unit, `no_reference_only_internal`) -/
 def refsOk (tbl : ParamTable) (fconv : FconvTable) : Bool :=
   tbl.all fun m =>
-    m.1 == "ExtinctionModel1D" || !(m.2.any fun p => p.2 == "flux") ||
-      (match fconv.lookup m.1 with
-       | some r => r ∈ refNames && m.2.lookup r == some "wave"
-       | none => false)
+    !(m.2.any fun p => p.2 == "flux") ||
+      (if m.2.any (fun p => p.2 == "wave") then
+         match fconv.lookup m.1 with
+         | some r => r ∈ refNames && m.2.lookup r == some "wave"
+         | none => false
+       else fconv.lookup m.1 == none)
 
 /-- every entry of `_model_fconv_wav` is about a supported class and one of its wave-like parameters -/
 def fconvOk (tbl : ParamTable) (fconv : FconvTable) : Bool :=
@@ -97,12 +98,6 @@ theorem kind_of_listed (m : String) (ps : List (String × String)) (p k : String
   rw [List.all_eq_true] at h1
   have h2 := h1 (p, k) hp
   simpa using h2
-
-/-- `ExtinctionModel1D` is the one class with a flux-like parameter and no reference wavelength -/
-theorem extinction_has_no_reference :
-    Generated.modelFconvWav.lookup "ExtinctionModel1D" = none ∧
-    (Generated.modelParamTable.lookup "ExtinctionModel1D").bind (·.lookup "lookup_table") = some "flux" := by
-  decide +kernel
 
 /-! ## what each kind of processing computes -/
 
@@ -292,57 +287,77 @@ theorem powerlaw_x0_own_conversion (args : Args K) (a ax : Arg K) (v x al : K) (
   rw [ha, hx]
   simp only [hal, hav, hfd, hxv, bind, Except.bind, if_true, pure, Except.pure]
 
-/-
-  -- NOT PROVABLE ON CURRENT CODE.  The property claims the equivalence for *every* supported class and
-  -- every flux-like parameter given in a compatible unit, i.e. also
+/-- a class without reference wavelength (`Const1D`) takes a flux Quantity on a source only in the
+internal unit; any other flux density is refused (there is no wavelength to convert it at) -/
+theorem no_reference_only_internal (z : K) (f : List K) (u : FluxUnit K) (hfd : isFluxDensity u = true) :
+    processFlux P T .source z none { vals := f, unit := some (.flux u) } =
+      if u = .photlam then .ok f else .error .synphotError := by
+  simp [processFlux, hfd, convertAtRef]
 
-  theorem const1_quantity_eq_number (a : K) (x : K) :
-      (construct P T Generated.modelParamTable Generated.modelFconvWav false
-        { cls := .source, z := 0, isModelClass := true, model := "Const1D", nModels := 1,
-          args := [("amplitude", { vals := [a], unit := some (.flux .photlam) })] }) =
-      (construct … args := [("amplitude", Arg.num [a])])
-
-  theorem extinction_table_converted (hfd : isFluxDensity u) … :
-      processArgs … { cls := .source, model := "ExtinctionModel1D",
-                      args := [("points", Arg.num w), ("lookup_table", ⟨f, some (.flux u)⟩)] }
-        = (convEach P T z u w f).map fun v => [("points", Arg.num w), ("lookup_table", Arg.num v)]
-
-  -- Both are false; the two theorems below are the machine-checked witnesses
-  -- (known_findings.json: C15 `quantity_vs_number:source:Const1D:*`, `…:ExtinctionModel1D:*`).
--/
-
-/-- witness 1: `Const1D` is handed the PHOTLAM Quantity itself; the resulting object cannot be sampled
-in PHOTLAM (astropy returns PHOTLAM², modelled as a unit error), whereas the number gives `a` -/
-theorem const1_quantity_not_number (E : Env K) (C : BlackBody.BBConst K) (a x : K) :
-    (do let b ← construct E.P E.T Generated.modelParamTable Generated.modelFconvWav false
-              { cls := .source, z := 0, isModelClass := true, model := "Const1D", nModels := 1,
-                args := [("amplitude", { vals := [a], unit := some (.flux .photlam) })] }
-        sampleAt E C 0 b x) = .error .unitError ∧
-    (do let b ← construct E.P E.T Generated.modelParamTable Generated.modelFconvWav false
-              { cls := .source, z := 0, isModelClass := true, model := "Const1D", nModels := 1,
-                args := [("amplitude", Arg.num [a])] }
-        sampleAt E C 0 b x) = .ok a := by
-  have hl : Generated.modelParamTable.lookup "Const1D" = some [("amplitude", "noconv")] := by decide +kernel
+/-- [core] `Const1D` on a source: the amplitude given as a PHOTLAM Quantity builds the object the plain
+number builds (repaired by 0d4a51b; before, the Quantity reached astropy unconverted) -/
+theorem const1_quantity_eq_number (z a : K) :
+    construct P T Generated.modelParamTable Generated.modelFconvWav false
+      { cls := .source, z := z, isModelClass := true, model := "Const1D", nModels := 1,
+        args := [("amplitude", { vals := [a], unit := some (.flux .photlam) })] } =
+    construct P T Generated.modelParamTable Generated.modelFconvWav false
+      { cls := .source, z := z, isModelClass := true, model := "Const1D", nModels := 1,
+        args := [("amplitude", Arg.num [a])] } ∧
+    construct P T Generated.modelParamTable Generated.modelFconvWav false
+      { cls := .source, z := z, isModelClass := true, model := "Const1D", nModels := 1,
+        args := [("amplitude", Arg.num [a])] } = .ok (.leaf (.const1 a)) := by
+  have hl : Generated.modelParamTable.lookup "Const1D" = some [("amplitude", "flux")] := by decide +kernel
   have hf : Generated.modelFconvWav.lookup "Const1D" = none := by decide +kernel
-  constructor
-  · simp [construct, processArgs, hl, hf, processOne, build, sampleAt, Built.eval, bind, Except.bind,
-      List.lookup, pure, Except.pure]
-  · simp [construct, processArgs, hl, hf, processOne, build, sampleAt, Built.eval, bind, Except.bind,
-      List.lookup, pure, Except.pure, Arg.num, Leaf.eval]
+  constructor <;>
+    simp [construct, processArgs, hl, hf, processOne, processFlux, isFluxDensity, convertAtRef, build,
+      bind, Except.bind, List.lookup, pure, Except.pure, Arg.num, Except.map]
 
-/-- witness 2: a flux-unit table for `ExtinctionModel1D` in a `SourceSpectrum` is converted without any
-wavelength: every unit other than PHOTLAM gives NaN -/
-theorem extinction_source_nan (z : K) (w f : List K) (u : FluxUnit K) (hu : u ≠ .photlam)
+/-- … on a unitless class: a dimensionless Quantity (`percent` ↦ 1/100) is the number it stands for -/
+theorem const1_throughput_eq_number (a k : K) :
+    construct P T Generated.modelParamTable Generated.modelFconvWav false
+      { cls := .unitless, z := 0, isModelClass := true, model := "Const1D", nModels := 1,
+        args := [("amplitude", { vals := [a], unit := some (.dimensionless k) })] } =
+      .ok (.leaf (.const1 (a * k))) := by
+  have hl : Generated.modelParamTable.lookup "Const1D" = some [("amplitude", "flux")] := by decide +kernel
+  have hf : Generated.modelFconvWav.lookup "Const1D" = none := by decide +kernel
+  simp [construct, processArgs, hl, hf, processOne, processFlux, build,
+    bind, Except.bind, List.lookup, pure, Except.pure, Arg.num, Except.map]
+
+/-- `Const1D` on a source with an amplitude in any other flux density: refused with `SynphotError` -/
+theorem const1_other_unit_rejected (z a : K) (u : FluxUnit K) (hu : u ≠ .photlam) (keepNeg : Bool) :
+    construct P T Generated.modelParamTable Generated.modelFconvWav keepNeg
+      { cls := .source, z := z, isModelClass := true, model := "Const1D", nModels := 1,
+        args := [("amplitude", { vals := [a], unit := some (.flux u) })] } = .error .synphotError := by
+  have hl : Generated.modelParamTable.lookup "Const1D" = some [("amplitude", "flux")] := by decide +kernel
+  have hf : Generated.modelFconvWav.lookup "Const1D" = none := by decide +kernel
+  by_cases hfd : isFluxDensity u = true
+  · simp [construct, processArgs, hl, hf, processOne, processFlux, hfd, convertAtRef, hu,
+      bind, Except.bind, List.lookup, Except.map]
+  · have hfd' : isFluxDensity u = false := by simpa using hfd
+    simp [construct, processArgs, hl, hf, processOne, processFlux, hfd',
+      bind, Except.bind, List.lookup, Except.map]
+
+/-- [core] `ExtinctionModel1D` in a `SourceSpectrum`: a flux-unit table is converted element by element at
+its own wavelengths × (1+z), exactly as for `Empirical1D` (repaired by e50ecea; before, the class had no
+reference wavelength and the table became NaN) -/
+theorem extinction_table_converted (z : K) (w f : List K) (u : FluxUnit K) (hu : u ≠ .photlam)
     (hfd : isFluxDensity u = true) :
     processArgs P T Generated.modelParamTable Generated.modelFconvWav
       { cls := .source, z := z, isModelClass := true, model := "ExtinctionModel1D", nModels := 1,
         args := [("points", Arg.num w), ("lookup_table", { vals := f, unit := some (.flux u) })] }
-      = .error .nan := by
+      = (convEach P T z u w f).map fun v => [("points", Arg.num w), ("lookup_table", Arg.num v)] := by
   have hl : Generated.modelParamTable.lookup "ExtinctionModel1D" =
       some [("points", "wave"), ("lookup_table", "flux")] := by decide +kernel
-  have hf : Generated.modelFconvWav.lookup "ExtinctionModel1D" = none := by decide +kernel
-  simp [processArgs, hl, hf, processOne, List.lookup, processWave, Arg.num, processFlux, hfd, convertAtRef, hu,
-    Except.map, bind, Except.bind]
+  have hf : Generated.modelFconvWav.lookup "ExtinctionModel1D" = some "points" := by decide +kernel
+  have hc := flux_at_redshifted_reference (P := P) (T := T) z u hu hfd w f
+  have hp : processOne P T SpecClass.source z (some w) [("points", "wave"), ("lookup_table", "flux")]
+      ("lookup_table", { vals := f, unit := some (QUnit.flux u) }) =
+      (convEach P T z u w f).map fun v => ("lookup_table", Arg.num v) := by
+    rw [flux_kind_processed (P := P) (T := T) SpecClass.source z (some w) _ _ (by simp [List.lookup]), hc]
+  have hw : processWave P (Arg.num w) = .ok w := rfl
+  simp [processArgs, hl, hf, List.lookup, popKey, hw, mapM_cons', mapM_nil', bind, Except.bind, pure,
+    Except.pure, hp]
+  cases convEach P T z u w f <;> simp [Except.map]
 
 /-! ## GaussianFlux1D -/
 
